@@ -34,6 +34,7 @@ type (
 		Forall bool
 		Vars   []QVar
 		Body   Expr
+		Pats   []Expr // optional trigger (one multi-pattern)
 	}
 	ECall struct {
 		Fun  string
@@ -239,6 +240,19 @@ func (ps *sparser) quant() Expr {
 			continue
 		}
 		break
+	}
+	// optional triggers: { e1, e2 } (one multi-pattern)
+	if ps.isOp("{") {
+		ps.p++
+		for {
+			q.Pats = append(q.Pats, ps.expr1())
+			if ps.isOp(",") {
+				ps.p++
+				continue
+			}
+			break
+		}
+		ps.eat("}")
 	}
 	ps.eat("::")
 	q.Body = ps.expr()
